@@ -416,6 +416,18 @@ class MultiTypeMap(dict):
         return True
 
     def __missing__(self, obj_t_tup):
+        # The keyword part of a key is a set: the order in which a call site
+        # writes its keywords leads to the entry of the sorted key
+        kw = [t for t in obj_t_tup if isinstance(t, tuple)]
+        if kw != sorted(kw, key=lambda t: t[0]):
+            canonical = (
+                *[t for t in obj_t_tup if not isinstance(t, tuple)],
+                *sorted(kw, key=lambda t: t[0]),
+            )
+            result = self[canonical]
+            self[obj_t_tup] = result
+            return result
+
         _verif.point("mtm.miss", key=obj_t_tup)
         if obj_t_tup and isinstance(obj_t_tup[0], CodeType):
             real_tup = obj_t_tup[1:]
